@@ -104,6 +104,18 @@ def perturb(pr, rng):
     return pr
 
 
+def add_escaped_strings(pr, rng):
+    """String constants whose literals contain escapes (\\n, \\t, \\\\ ...) near the top of every file: what a
+    token contains must not move the line numbers of what follows."""
+    for fname, ds in pr["files"].items():
+        at = max([i for i, d in enumerate(ds) if d["d"] in ("proto", "import")] + [0]) + 1
+        for j in range(rng.randint(1, 2)):
+            src = rng.choice(["line one\\nline two", "a\\n\\nb\\n", "tab\\there", "q\\\"q\\n", "back\\\\slash n"])
+            val = src.replace("\\n", "\n").replace("\\t", "\t").replace('\\"', '"').replace("\\\\", "\\")
+            ds.insert(at, {"d": "const", "name": "ZZ_TEXT_%s%d" % (fname.upper(), j), "style": "ok",
+                           "v": {"e": "str", "src": src, "val": val}})
+
+
 def observe_positions(proto, texts):
     """Pos events for every definition, RefPos for references that start their line."""
     from bitproto._ast import Alias, Constant, Enum, EnumField, Message, MessageField, Option, Proto
@@ -205,6 +217,8 @@ def main(tier, replay=None):
             if k % 3 == 1:
                 base = gen.wrap_diamond(base, rng)      # two sibling imports in one file, one file reached twice
             pr = perturb(base, rng)
+            if k % 3 == 0:
+                add_escaped_strings(pr, rng)
             if k % 4 == 2:
                 # the deprecated spelling of aliases (a syntax warning on stderr, same meaning, other word order)
                 for ds_ in pr["files"].values():
@@ -246,6 +260,8 @@ def main(tier, replay=None):
             if k % 2 == 1:
                 base = gen.wrap_diamond(base, rng)
             base = perturb(base, rng)
+            if k % 2 == 0:
+                add_escaped_strings(base, rng)
             got = inject.inject(base, rules[(k + seed) % len(rules)], rng)
             if got is None:
                 got = inject.inject(base, rng.choice(["width", "dup-name", "undefined-type", "capacity"]), rng)
